@@ -32,7 +32,7 @@ RULE = (
     "Non-trivial = the damaged file opened and >= 3 undescribed entities were compared; distinct = (file, item kind, item name)."
 )
 ASSUMPTIONS = [
-    "optional items: Contributors; entity Visible/Public/Clipping IDs/Allow delete/Allow move/Allow rename and Metadata; type Description/Units/Color map/Value map and display switches; Root; PropertyGroups block; empty child containers",
+    "optional items: Contributors; entity Visible/Public/Clipping IDs/Allow delete/Allow move/Allow rename and Metadata; type Description/Units/Color map/Value map (and the attributes of those map datasets) and display switches; Root; PropertyGroups block; empty child containers",
     "mandatory items: ID, Name, Type link, flat containers; everything else is unclassified (collateral clause only)",
     "the described set of an item is computed structurally from the intact file",
 ]
@@ -218,6 +218,8 @@ def classify(gpath, what, name, raw):
             return "unclassified", "types", {"nodes": set(), "types": {name.strip("{}").lower()}}
         tid = parts[3].strip("{}").lower()
         desc = {"nodes": set(), "types": {tid}}
+        if depth == 5 and parts[4] in ("Color map", "Value map") and what == "attr":
+            return "optional", "type", desc  # an attribute of an optional map is no more mandatory than the map
         if what == "attr":
             if name in ("ID", "Name"):
                 return "mandatory", "type", desc
